@@ -620,6 +620,11 @@ def gen_inst(outdir, seed, k):
     goff_val = r.choice([0, 1, 16, 100, 4000])
     ginit_val = r.getrandbits(64)
     mem_min = r.choice([1, 1, 2]); mem_max = 4
+    # stratum that random choice reaches too rarely: imported memory whose data segments are all passive, embedded through the
+    # external mode (variant numbers with k % 3 == 2 are translated with -d gnu-ld)
+    only_passive = (k % 8 == 5)
+    if only_passive:
+        mem_imported = True; shared = False
     hook = m.import_func("env", "hook", [I32], []) if has_start else None
     # import names as toolchains produce them: double underscores, dots, dashes, '$', the letter X (the translator's
     # escape character); the resolver must be asked for exactly these strings
@@ -654,6 +659,8 @@ def gen_inst(outdir, seed, k):
     size = mem_min * 65536
     segs = []
     nseg = r.choice([0, 1, 2, 3, 5])
+    if only_passive:
+        nseg = 0
     for j in range(nseg):
         kind = r.random()
         ln = r.choice([0, 1, 3, 8, 40])
